@@ -39,13 +39,14 @@ def sizeClauseRestart (cap restored size inflightSum : Int) (queuedNone noneUnfi
   (!queuedNone || decide (size ≤ inflightSum)) && (!noneUnfinished || size == 0)
 
 /-- what an Offer of size `el` must return at once, given the size reported before it and whether `Shutdown` has been
-called: the refusal rule (memory queue: the stopped guard sits after the overflow test) -/
+called: the refusal rule (memory queue: a non-blocking queue answers "full" first; a stopped queue neither accepts nor
+lets anybody wait) -/
 def expectedRefusal (persistent block stopped : Bool) (cap sizeBefore el : Int) : String :=
   if persistent then
     if sizeBefore + el > cap then (if !block then "full" else if el > cap then "big" else "") else ""
   else
     if el == 0 then "" else if el < 0 then "inv" else if el > cap then "big"
-    else if sizeBefore + el > cap then (if !block then "full" else "")
+    else if sizeBefore + el > cap then (if !block then "full" else if stopped then "stopped" else "")
     else if stopped then "stopped" else ""
 
 /-- refusal clause: the Offer returned exactly the refusal the rule prescribes ("" = no refusal: `st` is not one
@@ -58,6 +59,9 @@ def refusalClause (persistent block stopped : Bool) (cap sizeBefore el : Int) (s
 (memory: reported size > 0) -/
 def blockedClause (persistent : Bool) (size : Int) (noneUnfinished : Bool) (blockedForSpace : Nat) : Bool :=
   blockedForSpace == 0 || (if persistent then !noneUnfinished else size != 0)
+
+/-- release clause as worded: at rest every producer still blocked for space does not fit (`els` = their sizes) -/
+def fitsClause (cap size : Int) (els : List Int) : Bool := els.all (fun el => decide (size + el > cap))
 
 /-- consumer wake-up clause: at quiescence no request is queued while a consumer is parked in `Read` -/
 def parkedClause (queued parked : Nat) : Bool := queued == 0 || parked == 0
@@ -222,8 +226,10 @@ def Mon.onObs (m : Mon) (toks : List String) : Mon :=
         | _ => m
       -- never left blocked (for space) while the queue is empty
       let blockedForSpace := cur.ps.filter (fun (p, st) => st == "B" && !(m.accepted.contains p))
-      -- (the property speaks about a RUNNING queue: after `Shutdown` a released producer is refused and nobody is promised a wake-up)
-      let m := m.failIf (!m.stopped && !(blockedClause m.persistent cur.size unfinished.isEmpty blockedForSpace.length)) "C02/queue/blocked-while-empty" s!"blocked={blockedForSpace.map (·.1)}{at_}"
+      let m := m.failIf (!(blockedClause m.persistent cur.size unfinished.isEmpty blockedForSpace.length)) "C02/queue/blocked-while-empty" s!"blocked={blockedForSpace.map (·.1)}{at_}"
+      -- released once enough space is free: whoever is still blocked for space does not fit
+      let m := m.failIf (!(fitsClause m.cap cur.size (blockedForSpace.map (fun (p, _) => (m.els.lookup p).getD 0))))
+        "C02/queue/blocked-although-request-fits" s!"size={cur.size} cap={m.cap} blocked={blockedForSpace.map (fun (p, _) => (p, (m.els.lookup p).getD 0))}{at_}"
       -- consumer side: nothing queued beside a parked consumer
       let parked := (cur.cs.filter (fun (_, st) => st == "B")).length
       let m := m.failIf (!(parkedClause cur.q.length parked)) "C02/queue/request-waits-beside-parked-consumer" s!"queued={cur.q} parked-consumers={parked}{at_}"
